@@ -56,7 +56,7 @@ COMPONENTS = {
 
 TRAIN_OPS = ["kmeans_fit", "gmm_ml_fit", "gmm_map_fit", "isv_fit", "jfa_fit", "iv_fit",
              "isv_fit_array", "jfa_fit_array", "wccn_fit", "whitening_fit"]
-USE_OPS = ["parallel_ubm_stats", "ubm_acc_stats", "ubm_transform", "ubm_ll", "km_use", "km_varw", "isv_enroll",
+USE_OPS = ["parallel_ubm_stats", "parallel_model_use", "ubm_acc_stats", "ubm_transform", "ubm_ll", "km_use", "km_varw", "isv_enroll",
            "jfa_enroll", "isv_enroll_array", "jfa_enroll_array", "isv_score", "jfa_score",
            "isv_score_array", "jfa_score_array", "isv_estimate", "jfa_estimate", "isv_transform",
            "iv_project", "iv_transform", "linear_scoring", "stats_add", "stats_iadd",
@@ -75,6 +75,8 @@ USES = {"linear_scoring": ["map"], "isv_score": ["isv", "z_isv"], "jfa_score": [
 
 
 def _used(pool, opname):
+    if opname == "parallel_model_use":
+        return sorted((k, obj_digest(v)) for k, v in pool.models.items())
     slots = USES.get(opname) or ([NEEDS[opname]] if NEEDS.get(opname) else [])
     return [obj_digest(pool.models.get(s)) for s in slots]
 
@@ -444,6 +446,38 @@ def _call(pool, o, rec, label):
         def go():
             return dask.compute(*[dask.delayed(pool.ubm.acc_stats)(b) for b in blocks])
         return list(rec.run(sch, go, np_seed=o["np_seed"], label=label)), None
+    if name == "parallel_model_use":
+        # several caller threads call public methods of the SAME trained objects at once; each
+        # must get what it would get alone
+        import dask
+        calls = [("ubm.acc_stats", lambda: pool.ubm.acc_stats(X[:4])),
+                 ("ubm.ll", lambda: pool.ubm.log_likelihood(X[:5]))]
+        mm = pool.models
+        if "km" in mm and np.isfinite(np.asarray(mm["km"].centroids_)).all():
+            calls.append(("km.predict", lambda: mm["km"].predict(X[:6])))
+        for fam, zname in (("isv", "z_isv"), ("jfa", "yz_jfa")):
+            if fam in mm:
+                calls.append((fam + ".estimate_x", lambda fam=fam: mm[fam].estimate_x(sel)))
+                calls.append((fam + ".enroll", lambda fam=fam: mm[fam].enroll(sel)))
+                if zname in mm:
+                    calls.append((fam + ".score", lambda fam=fam, zname=zname:
+                                  mm[fam].score(mm[zname], sel)))
+        if "iv" in mm:
+            calls.append(("iv.project", lambda: mm["iv"].project(sel[0])))
+        if "map" in mm:
+            calls.append(("map.acc_stats", lambda: mm["map"].acc_stats(X[:4])))
+        sch = dict(o.get("sched") or {"policy": "random", "workers": 3, "stall_p": 0.5,
+                                      "seed": o["np_seed"]}, mode="threads")
+
+        def go():
+            return dask.compute(*[dask.delayed(f)() for _, f in calls])
+        together = rec.run(sch, go, np_seed=o["np_seed"], label=label)
+        alone = [f() for _, f in calls]
+        for (nm, _), a, b in zip(calls, together, alone):
+            if res_digest(a) != res_digest(b):
+                raise _ConcurrentDiffers(nm)
+        rec.probe("concurrent_public_calls_compared", len(calls))
+        return [res_digest(a) for a in together], None
     if name == "ubm_acc_stats":
         return pool.ubm.acc_stats(X), None
     if name == "ubm_transform":
@@ -513,6 +547,10 @@ def _call(pool, o, rec, label):
         r = t.transform(X)
         return r, None
     raise HarnessError(f"unknown op {name}")
+
+
+class _ConcurrentDiffers(Exception):
+    pass
 
 
 def _lin_fit(t, X, y, name):
@@ -631,6 +669,9 @@ def run_case(case, replay=None):
                     r, produced = _call(pool, o, rec, f"op{i}")
             except HarnessError:
                 raise
+            except _ConcurrentDiffers as e:
+                return Result.violation("concurrent-call-differs-from-sequential",
+                                        {"after_op": i, "call": str(e)}, **rec.fields())
             except Exception as e:
                 if case.get("readonly") and "read-only" in repr(e):
                     return Result.violation("caller-input-written",
